@@ -414,13 +414,29 @@ def run(ctx):
                    [o.store.get(("NEWMT", F("mark_type", "ctype"))) for o in acc]))
     ctx.check(E("PRV_OVNI_MARK") == 100, "R17.4", "PRV_OVNI_MARK=100", "src/emu/emu_prv.h",
               "PRV_OVNI_MARK is %d, documented 100" % E("PRV_OVNI_MARK"))
+    # evaluated with one mark type of each channel kind: what track_init / chan_init receive (public functions
+    # of other modules, recorded at the call), however the values get there
     for fname, want in (("create_thread_chan", "TRACK_TH_ACT"), ("init_cpu", "TRACK_TH_RUN")):
         fn = prog.fn(fname, MK)
-        modes = [fn.val(fn.nodes[c]["args"][3]) for c in fn.all_calls_syntactic("track_init")]
-        ctx.check(modes and all(m == E(want) for m in modes), "R17.4", "%s:tracking=%s" % (fname, want), fn.loc(),
-                  "%s initialises the mark tracks with mode %s, documented %s" % (fname, modes, want))
-    ctc = prog.fn("create_thread_chan", MK)
-    ci = [c for c in ctc.all_calls_syntactic("chan_init")]
-    okc = ci and all("ctype" in ctc.src(ctc.nodes[c]["args"][1]) for c in ci)
-    ctx.check(okc, "R17.4", "create_thread_chan:channel-kind-from-type", ctc.loc(),
-              "mark channels are not created with the declared channel type")
+        for ctype_name in ("CHAN_SINGLE", "CHAN_STACK"):
+            modes, kinds = [], []
+            sums4 = {"track_init": lambda ex_, st_, a, f, e, modes=modes: (modes.append(a[3]), [(INT(0), {})])[1],
+                     "chan_init": lambda ex_, st_, a, f, e, kinds=kinds: (kinds.append(a[1]), [(TOP, {})])[1],
+                     "calloc": lambda ex_, st_, a, f, e: [(PTR("MEM%d" % (len(modes) + len(kinds) + e), (0,)), {})],
+                     "extend_get": lambda ex_, st_, a, f, e: [(PTR("EXT"), {})],
+                     "bay_register": lambda ex_, st_, a, f, e: [(INT(0), {})],
+                     "chan_prop_set": lambda ex_, st_, a, f, e: [(TOP, {})]}
+            ex4 = absint.Explorer(prog, effects=eff, summaries=sums4, loop_bound=4)
+            store4 = {("MEMU", F("ovni_mark_emu", "ntypes")): INT(1), ("MEMU", F("ovni_mark_emu", "types")): PTR("MT1"),
+                      ("MT1", F("mark_type", "index")): INT(0), ("MT1", F("mark_type", "type")): INT(5),
+                      ("MT1", F("mark_type", "ctype")): INT(E(ctype_name)),
+                      ("MT1", F("mark_type", "hh") + F("UT_hash_handle", "next")): NULL}
+            outs4 = ex4.run(fn, [PTR("MEMU"), PTR("BAY"), PTR("OBJ")], store4)
+            acc4 = [o for o in outs4 if o.kind == "ret" and o.ret == INT(0)]
+            ctx.check(bool(acc4) and modes and all(m == INT(E(want)) for m in modes), "R17.4",
+                      "%s:tracking=%s:%s" % (fname, want, ctype_name), fn.loc(),
+                      "%s initialises the mark tracks with mode %s, documented %s" % (fname, modes, want))
+            if fname == "create_thread_chan":
+                ctx.check(kinds and all(k_ == INT(E(ctype_name)) for k_ in kinds), "R17.4",
+                          "create_thread_chan:channel-kind-from-type:%s" % ctype_name, fn.loc(),
+                          "a mark type declared %s gets channels of kind %s" % (ctype_name, kinds))
